@@ -24,7 +24,7 @@ open Spec.CST
 theorem flatten_lead_tail : ∀ c : CST, c.flatten = c.lead.flatten ++ c.tail
   | .bin nt o l r => by simp [CST.flatten, lead, tail, flatten_lead_tail l, List.append_assoc]
   | .tern c a b => by simp [CST.flatten, lead, tail, flatten_lead_tail c, List.append_assoc]
-  | .atom _ | .paren _ | .unary _ _ | .postfix _ _ | .call _ _ | .list _ | .map _ => by simp [lead, tail]
+  | .atom _ | .paren _ | .unary _ _ | .postfix _ _ | .call _ _ | .list _ _ | .map _ _ => by simp [lead, tail]
 
 theorem headOp_opToks {nt : Bool} {o : Name} (r : List Tok) (ho : o ≠ notName) :
     headOp (opToks nt o ++ r) = some (nt, o, r) := by
@@ -165,7 +165,7 @@ theorem tail_primFollow {regs : Regs} (tb : TableOK regs) : ∀ (c : CST) (rest 
     simp only [tail, List.append_assoc, List.cons_append]
     exact tail_primFollow tb c _ hc.1 (primFollow_q tb _)
   | .atom _, _, _, h | .paren _, _, _, h | .unary _ _, _, _, h | .postfix _ _, _, _, h | .call _ _, _, _, h
-  | .list _, _, _, h | .map _, _, _, h => by simpa [tail] using h
+  | .list _ _, _, _, h | .map _ _, _, _, h => by simpa [tail] using h
 
 theorem root_infix {regs : Regs} {c : CST} (hc : Canon regs c) {o : Name} (h : c.root? = some o) : regs.isInfix o = true := by
   cases c <;> simp [root?] at h
@@ -178,7 +178,7 @@ theorem spine_infix {regs : Regs} : ∀ (c : CST), Canon regs c → ∀ o, o ∈
     · exact spine_infix l hc.2.1 o ho
     · subst ho; exact hc.1
   | .tern _ _ _, _, _, h | .atom _, _, _, h | .paren _, _, _, h | .unary _ _, _, _, h | .postfix _ _, _, _, h | .call _ _, _, _, h
-  | .list _, _, _, h | .map _, _, _, h => by simp [spineOps] at h
+  | .list _ _, _, _, h | .map _ _, _, _, h => by simp [spineOps] at h
 
 theorem spine_prec {regs : Regs} : ∀ (c : CST), Canon regs c → ∀ o r, c.root? = some r → o ∈ c.spineOps →
     Regs.prec regs r ≤ Regs.prec regs o
@@ -196,7 +196,7 @@ theorem spine_prec {regs : Regs} : ∀ (c : CST), Canon regs c → ∀ o r, c.ro
         omega
     · subst ho; exact Int.le_refl _
   | .tern _ _ _, _, _, _, h, _ | .atom _, _, _, _, h, _ | .paren _, _, _, _, h, _ | .unary _ _, _, _, _, h, _
-  | .postfix _ _, _, _, _, h, _ | .call _ _, _, _, _, h, _ | .list _, _, _, _, h, _ | .map _, _, _, _, h, _ => by simp [root?] at h
+  | .postfix _ _, _, _, _, h, _ | .call _ _, _, _, _, h, _ | .list _ _, _, _, _, h, _ | .map _ _, _, _, _, h, _ => by simp [root?] at h
 
 theorem tail_head {regs : Regs} : ∀ (c : CST), Canon regs c → ∀ o, c.root? = some o →
     ∃ nt o2 ts, c.tail = opToks nt o2 ++ ts ∧ o2 ∈ c.spineOps
@@ -210,7 +210,7 @@ theorem tail_head {regs : Regs} : ∀ (c : CST), Canon regs c → ∀ o, c.root?
       obtain ⟨nt2, o2, ts, h1, h2⟩ := tail_head l hl rl hlr
       exact ⟨nt2, o2, ts ++ (opToks nt o' ++ r.flatten), by simp [tail, h1], by simp [spineOps, h2]⟩
   | .tern _ _ _, _, _, h | .atom _, _, _, h | .paren _, _, _, h | .unary _ _, _, _, h
-  | .postfix _ _, _, _, h | .call _ _, _, _, h | .list _, _, _, h | .map _, _, _, h => by simp [root?] at h
+  | .postfix _ _, _, _, h | .call _ _, _, _, h | .list _ _, _, _, h | .map _ _, _, _, h => by simp [root?] at h
 
 def Tok.isStart : Tok → Bool
   | .delim .closeParen | .delim .closeBracket | .delim .closeBrace => false
@@ -223,8 +223,8 @@ theorem flatten_start : ∀ c : CST, ∃ t r, c.flatten = t :: r ∧ t.isStart =
   | .unary _ _ => ⟨_, _, rfl, rfl⟩
   | .postfix c _ => by obtain ⟨t, r, h, ht⟩ := flatten_start c; exact ⟨t, _, by simp only [CST.flatten, h, List.cons_append]; rfl, ht⟩
   | .call _ _ => ⟨_, _, rfl, rfl⟩
-  | .list _ => ⟨_, _, rfl, rfl⟩
-  | .map _ => ⟨_, _, rfl, rfl⟩
+  | .list _ _ => ⟨_, _, rfl, rfl⟩
+  | .map _ _ => ⟨_, _, rfl, rfl⟩
   | .bin _ _ l _ => by obtain ⟨t, r, h, ht⟩ := flatten_start l; exact ⟨t, _, by simp only [CST.flatten, h, List.cons_append]; rfl, ht⟩
   | .tern c _ _ => by obtain ⟨t, r, h, ht⟩ := flatten_start c; exact ⟨t, _, by simp only [CST.flatten, h, List.cons_append]; rfl, ht⟩
 
@@ -236,7 +236,7 @@ def needsFollowTok : CST → Bool
   | .unary _ _ => true
   | _ => false
 def isTokLevel : CST → Bool
-  | .atom _ | .paren _ | .unary _ _ | .call _ _ | .list _ | .map _ => true
+  | .atom _ | .paren _ | .unary _ _ | .call _ _ | .list _ _ | .map _ _ => true
   | _ => false
 end Spec.CST
 
@@ -252,9 +252,11 @@ structure M (regs : Regs) (lim d : Nat) (c : CST) : Prop where
 structure ML (regs : Regs) (lim d : Nat) (xs : CList) : Prop where
   args : xs ≠ .nil → ∀ rest, PArgs regs lim d (xs.flatten ++ tClose :: rest) xs.strip rest
   items : ∀ rest, PItems regs lim d (xs.flatten ++ tCloseB :: rest) xs.strip (tCloseB :: rest)
+  itemsTrail : xs ≠ .nil → ∀ rest, PItems regs lim d (xs.flatten ++ .comma :: tCloseB :: rest) xs.strip (tCloseB :: rest)
 
-def MM (regs : Regs) (lim d : Nat) (kvs : CMap) : Prop :=
-  ∀ rest, PEntries regs lim d (kvs.flatten ++ tCloseC :: rest) kvs.strip (tCloseC :: rest)
+structure MM (regs : Regs) (lim d : Nat) (kvs : CMap) : Prop where
+  entries : ∀ rest, PEntries regs lim d (kvs.flatten ++ tCloseC :: rest) kvs.strip (tCloseC :: rest)
+  entriesTrail : kvs ≠ .nil → ∀ rest, PEntries regs lim d (kvs.flatten ++ .comma :: tCloseC :: rest) kvs.strip (tCloseC :: rest)
 
 theorem top_of_M {regs : Regs} (tb : TableOK regs) {lim d : Nat} {c : CST} (hc : Canon regs c) (hd : d + 1 ≤ lim)
     (m : M regs lim (d + 1) c) (rest : List Tok) (hs : Follow regs rest) :
@@ -358,20 +360,30 @@ theorem main {regs : Regs} (tb : TableOK regs) (lim : Nat) : ∀ (c : CST) (d : 
       obtain ⟨t, ts, hfl, ht⟩ := clist_start c r
       refine PTok.call (m.args (by intro e; cases e) X) ?_ hh
       rw [hfl]; exact (start_ne ht).2.1
-  | .list xs, d, hc, hn, hh => by
+  | .list xs tr, d, hc, hn, hh => by
     simp only [CST.nest] at hn
     simp only [CST.strip, AST.height] at hh
-    have m := mainList tb lim xs d hc hn (by omega)
+    have m := mainList tb lim xs d hc.1 hn (by omega)
     refine M.ofTok rfl rfl rfl (fun _ => rfl) fun X _ => ?_
-    simp only [CST.flatten, CST.strip, List.cons_append, List.append_assoc, List.nil_append]
-    exact PTok.list (m.items X) hh
-  | .map kvs, d, hc, hn, hh => by
+    cases tr with
+    | false =>
+      simp only [CST.flatten, CST.strip, trailToks, List.cons_append, List.append_assoc, List.nil_append, Bool.false_eq_true, if_false]
+      exact PTok.list (m.items X) hh
+    | true =>
+      simp only [CST.flatten, CST.strip, trailToks, List.cons_append, List.append_assoc, List.nil_append, if_true]
+      exact PTok.list (m.itemsTrail (hc.2 rfl) X) hh
+  | .map kvs tr, d, hc, hn, hh => by
     simp only [CST.nest] at hn
     simp only [CST.strip, AST.height] at hh
-    have m := mainMap tb lim kvs d hc hn (by omega)
+    have m := mainMap tb lim kvs d hc.1 hn (by omega)
     refine M.ofTok rfl rfl rfl (fun _ => rfl) fun X _ => ?_
-    simp only [CST.flatten, CST.strip, List.cons_append, List.append_assoc, List.nil_append]
-    exact PTok.map (m X) hh
+    cases tr with
+    | false =>
+      simp only [CST.flatten, CST.strip, trailToks, List.cons_append, List.append_assoc, List.nil_append, Bool.false_eq_true, if_false]
+      exact PTok.map (m.entries X) hh
+    | true =>
+      simp only [CST.flatten, CST.strip, trailToks, List.cons_append, List.append_assoc, List.nil_append, if_true]
+      exact PTok.map (m.entriesTrail (hc.2 rfl) X) hh
   | .tern c a b, d, hc, hn, hh => by
     obtain ⟨hcc, hct, hca, hcb⟩ := hc
     simp only [CST.nest] at hn
@@ -513,7 +525,8 @@ theorem main {regs : Regs} (tb : TableOK regs) (lim : Nat) : ∀ (c : CST) (d : 
 
 theorem mainList {regs : Regs} (tb : TableOK regs) (lim : Nat) : ∀ (xs : CList) (d : Nat), CanonList regs xs → d + xs.nest ≤ lim →
     AST.heightList xs.strip ≤ lim → ML regs lim d xs
-  | .nil, d, _, _, _ => ⟨fun h => absurd rfl h, fun rest => by simpa [CList.flatten, CList.strip] using PItems.nilClose rest⟩
+  | .nil, d, _, _, _ => ⟨fun h => absurd rfl h, fun rest => by simpa [CList.flatten, CList.strip] using PItems.nilClose rest,
+      fun h => absurd rfl h⟩
   | .cons c r, d, hc, hn, hh => by
     obtain ⟨hcc, hcr⟩ := hc
     simp only [CList.nest] at hn
@@ -521,7 +534,7 @@ theorem mainList {regs : Regs} (tb : TableOK regs) (lim : Nat) : ∀ (xs : CList
     have mc := main tb lim c (d + 1) hcc (by omega) (by omega)
     have mr := mainList tb lim r d hcr (by omega) (by omega)
     obtain ⟨t, ts, hfl, ht⟩ := flatten_start c
-    refine ⟨fun _ rest => ?_, fun rest => ?_⟩
+    refine ⟨fun _ rest => ?_, fun rest => ?_, fun _ rest => ?_⟩
     · cases r with
       | nil =>
         simp only [CList.flatten, CList.strip]
@@ -538,10 +551,20 @@ theorem mainList {regs : Regs} (tb : TableOK regs) (lim : Nat) : ∀ (xs : CList
         simp only [CList.flatten, CList.strip, List.append_assoc, List.cons_append]
         refine PItems.cons (top_of_M tb hcc (by omega) mc _ (follow_comma _ _)) ?_ (by simpa [CList.strip] using mr.items rest)
         rw [hfl]; exact ⟨(start_ne ht).1, (start_ne ht).2.2.1⟩
+    · cases r with
+      | nil =>
+        simp only [CList.flatten, CList.strip]
+        refine PItems.cons (top_of_M tb hcc (by omega) mc _ (follow_comma _ _)) ?_ (PItems.nilClose rest)
+        rw [hfl]; exact ⟨(start_ne ht).1, (start_ne ht).2.2.1⟩
+      | cons c2 r2 =>
+        simp only [CList.flatten, CList.strip, List.append_assoc, List.cons_append]
+        refine PItems.cons (top_of_M tb hcc (by omega) mc _ (follow_comma _ _)) ?_
+          (by simpa [CList.strip] using mr.itemsTrail (by intro e; cases e) rest)
+        rw [hfl]; exact ⟨(start_ne ht).1, (start_ne ht).2.2.1⟩
 
 theorem mainMap {regs : Regs} (tb : TableOK regs) (lim : Nat) : ∀ (kvs : CMap) (d : Nat), CanonMap regs kvs → d + kvs.nest ≤ lim →
     AST.heightMap kvs.strip ≤ lim → MM regs lim d kvs
-  | .nil, d, _, _, _ => fun rest => by simpa [CMap.flatten, CMap.strip] using PEntries.nilClose rest
+  | .nil, d, _, _, _ => ⟨fun rest => by simpa [CMap.flatten, CMap.strip] using PEntries.nilClose rest, fun h => absurd rfl h⟩
   | .cons k v r, d, hc, hn, hh => by
     obtain ⟨hck, hcv, hcr⟩ := hc
     simp only [CMap.nest] at hn
@@ -550,17 +573,28 @@ theorem mainMap {regs : Regs} (tb : TableOK regs) (lim : Nat) : ∀ (kvs : CMap)
     have mv := main tb lim v (d + 1) hcv (by omega) (by omega)
     have mr := mainMap tb lim r d hcr (by omega) (by omega)
     obtain ⟨t, ts, hfl, ht⟩ := flatten_start k
-    intro rest
-    cases r with
-    | nil =>
-      simp only [CMap.flatten, CMap.strip, List.append_assoc, List.cons_append]
-      refine PEntries.last (top_of_M tb hck (by omega) mk _ (follow_colon tb _)) (top_of_M tb hcv (by omega) mv _ (follow_close _ _ _)) ?_
-      rw [hfl]; exact ⟨(start_ne ht).1, (start_ne ht).2.2.2⟩
-    | cons k2 v2 r2 =>
-      simp only [CMap.flatten, CMap.strip, List.append_assoc, List.cons_append]
-      refine PEntries.cons (top_of_M tb hck (by omega) mk _ (follow_colon tb _)) (top_of_M tb hcv (by omega) mv _ (follow_comma _ _)) ?_
-        (by simpa [CMap.strip] using mr rest)
-      rw [hfl]; exact ⟨(start_ne ht).1, (start_ne ht).2.2.2⟩
+    refine ⟨fun rest => ?_, fun _ rest => ?_⟩
+    · cases r with
+      | nil =>
+        simp only [CMap.flatten, CMap.strip, List.append_assoc, List.cons_append]
+        refine PEntries.last (top_of_M tb hck (by omega) mk _ (follow_colon tb _)) (top_of_M tb hcv (by omega) mv _ (follow_close _ _ _)) ?_
+        rw [hfl]; exact ⟨(start_ne ht).1, (start_ne ht).2.2.2⟩
+      | cons k2 v2 r2 =>
+        simp only [CMap.flatten, CMap.strip, List.append_assoc, List.cons_append]
+        refine PEntries.cons (top_of_M tb hck (by omega) mk _ (follow_colon tb _)) (top_of_M tb hcv (by omega) mv _ (follow_comma _ _)) ?_
+          (by simpa [CMap.strip] using mr.entries rest)
+        rw [hfl]; exact ⟨(start_ne ht).1, (start_ne ht).2.2.2⟩
+    · cases r with
+      | nil =>
+        simp only [CMap.flatten, CMap.strip, List.append_assoc, List.cons_append]
+        refine PEntries.cons (top_of_M tb hck (by omega) mk _ (follow_colon tb _)) (top_of_M tb hcv (by omega) mv _ (follow_comma _ _)) ?_
+          (PEntries.nilClose rest)
+        rw [hfl]; exact ⟨(start_ne ht).1, (start_ne ht).2.2.2⟩
+      | cons k2 v2 r2 =>
+        simp only [CMap.flatten, CMap.strip, List.append_assoc, List.cons_append]
+        refine PEntries.cons (top_of_M tb hck (by omega) mk _ (follow_colon tb _)) (top_of_M tb hcv (by omega) mv _ (follow_comma _ _)) ?_
+          (by simpa [CMap.strip] using mr.entriesTrail (by intro e; cases e) rest)
+        rw [hfl]; exact ⟨(start_ne ht).1, (start_ne ht).2.2.2⟩
 end
 
 end EE
